@@ -13,6 +13,7 @@ from typing import Dict, List, Optional, Set, Tuple
 
 from ..db import ProgramDB, FuncInfo, ClassInfo, AnalysisError, unparse, own_nodes, dotted
 from ..facts import own_calls, call_attr, returns_of, fn_params, bind_args, strip_docstring, local_defs
+from ..cfg import CFG
 from ..framework import inst, HOLDS, VIOLATION, UNDECIDED, INFO, Instance
 from ..evalsites import site_model, EvalSite, is_eval_name
 
@@ -33,6 +34,8 @@ def role_of_origin(db: ProgramDB, fn: FuncInfo, origin: str) -> Tuple[str, str]:
         return "value", "a domain given as an expression: what it evaluates to are the members of the domain"
     if "._conclusion_" in origin:
         return "conclusion", "application of a conclusion to the binding"
+    if any(w in origin for w in ("._unique_variables_", "._all_variable_instances_")):
+        return "value", "a variable of an expression (taken from its set of variables): its values are enumerated to complete a binding, not tested"
     if origin.startswith("self.") and fn.cls is not None:
         fname = origin[5:].split("[")[0].split(".")[0]
         for c in fn.cls.mro:
@@ -274,23 +277,103 @@ def rule_value_not_tested(db: ProgramDB) -> List[Instance]:
     out = []
     se = db.cls("SymbolicExpression")
     n_methods = 0
+
+    def _is_read(x: ast.AST) -> bool:
+        return isinstance(x, ast.Attribute) and x.attr == "value" and isinstance(x.ctx, ast.Load) and not (
+            isinstance(x.value, ast.Name) and x.value.id == "self") and not (
+            isinstance(x.value, ast.Attribute) and isinstance(x.value.value, ast.Name) and x.value.value.id == "self")
+    # methods that hand a payload out (An._process_result_): a call of one is a payload
+    payload_methods: Set[str] = set()
+    for c in [se] + se.all_subclasses():
+        for m in c.methods.values():
+            if m.cls is c and any(isinstance(r, ast.Return) and r.value is not None and _is_read(r.value) for r in own_nodes(m.node)):
+                payload_methods.add(m.name)
     for c in sorted([se] + se.all_subclasses(), key=lambda k: k.qualname):
         for m in c.methods.values():
-            payload_reads = [x for x in own_nodes(m.node) if isinstance(x, ast.Attribute) and x.attr == "value"
-                             and isinstance(x.value, ast.Name) and x.value.id != "self"]
+            if m.cls is not c:
+                continue
+            payload_reads = [x for x in own_nodes(m.node) if _is_read(x) or
+                             (isinstance(x, ast.Call) and call_attr(x) in payload_methods and isinstance(x.func.value, ast.Name) and x.func.value.id == "self")]
             if not payload_reads:
                 continue
             tainted: Set[str] = set()
-            for a in own_nodes(m.node):
-                if isinstance(a, ast.Assign) and len(a.targets) == 1 and isinstance(a.targets[0], ast.Name) \
-                        and any(a.value is r for r in payload_reads):
-                    tainted.add(a.targets[0].id)
 
             def is_payload(e: ast.AST) -> bool:
-                return any(e is r for r in payload_reads) or (isinstance(e, ast.Name) and e.id in tainted)
+                """the payload itself or what is read out of it: an element, an attribute, the result of calling it"""
+                if any(e is r for r in payload_reads) or (isinstance(e, ast.Name) and e.id in tainted):
+                    return True
+                if isinstance(e, ast.Attribute) and e.attr.startswith("_") and e.attr.endswith("_") and not e.attr.startswith("__"):
+                    return False         # an attribute of the engine's own objects (a wrapped Variable: `v.value._domain_`), not of a user value
+                if isinstance(e, (ast.Subscript, ast.Attribute)) and not _is_read(e):
+                    return is_payload(e.value)
+                if isinstance(e, ast.Call):
+                    if is_payload(e.func):
+                        return True
+                    if dotted(e.func) == "getattr" and e.args and is_payload(e.args[0]):
+                        nm = e.args[1] if len(e.args) > 1 else None
+                        if isinstance(nm, ast.Constant) and isinstance(nm.value, str) and nm.value.startswith("_") and nm.value.endswith("_") \
+                                and not nm.value.startswith("__"):
+                            return False
+                        return True
+                    if isinstance(e.func, ast.Attribute) and e.func.attr in ("get", "__getitem__", "pop") and is_payload(e.func.value):
+                        return True
+                return False
+            changed = True
+            while changed:
+                changed = False
+                for a in own_nodes(m.node):
+                    if isinstance(a, ast.Assign) and len(a.targets) == 1 and isinstance(a.targets[0], ast.Name) \
+                            and a.targets[0].id not in tainted and is_payload(a.value):
+                        tainted.add(a.targets[0].id)
+                        changed = True
             n_methods += 1
             uses = []
             parent = db.parent
+            cfg_box: List[CFG] = []
+
+            def reaches_use(x: ast.AST) -> bool:
+                """a local name is a payload at this use only if an assignment of a payload to it reaches the use without the name
+                being assigned again on the way (a row fetched with next(stream, None), tested, and only then unwrapped into the
+                same name is not a payload where it is tested)"""
+                if not isinstance(x, ast.Name):
+                    return True
+                if not cfg_box:
+                    cfg_box.append(CFG(m))
+                cfg = cfg_box[0]
+                st = x
+                while st is not None and not isinstance(st, ast.stmt):
+                    st = parent(st)
+                def holds(nd) -> bool:
+                    a = nd.ast
+                    if a is None or nd.kind in ("entry", "exit"):
+                        return False
+                    if nd.kind == "for":
+                        return any(y is x for y in ast.walk(a.iter))
+                    if isinstance(a, (ast.Try, ast.While, ast.With, ast.For, ast.If, ast.FunctionDef, ast.AsyncFunctionDef, ast.ClassDef)):
+                        return False
+                    return any(y is x for y in ast.walk(a))
+                use_nodes = [nd for nd in cfg.nodes if holds(nd)]
+                if not use_nodes:
+                    return True
+
+                def stores(nd) -> bool:
+                    a = nd.ast
+                    if a is None:
+                        return False
+                    if nd.kind == "for":
+                        return any(isinstance(y, ast.Name) and y.id == x.id for y in ast.walk(a.target))
+                    if isinstance(a, (ast.If, ast.While, ast.For, ast.With, ast.Try)):
+                        return False
+                    return any(isinstance(y, ast.Name) and y.id == x.id and isinstance(y.ctx, ast.Store) for y in ast.walk(a))
+                defs = [nd for nd in cfg.nodes if nd.kind == "stmt" and isinstance(nd.ast, ast.Assign) and len(nd.ast.targets) == 1
+                        and isinstance(nd.ast.targets[0], ast.Name) and nd.ast.targets[0].id == x.id and is_payload(nd.ast.value)]
+                if not defs:
+                    return True          # tainted some other way (loop target, parameter): no refinement
+                goal_ids = {u.id for u in use_nodes}
+                for d in defs:
+                    if cfg.find_path(d.id, lambda nd: nd.id in goal_ids, blocked=lambda nd: stores(nd)) is not None:
+                        return True
+                return False
             for n in own_nodes(m.node):
                 tests = []
                 if isinstance(n, (ast.If, ast.While, ast.IfExp, ast.Assert)):
@@ -305,8 +388,16 @@ def rule_value_not_tested(db: ProgramDB) -> List[Instance]:
                         tests.append((n, t))
                 for holder, t in tests:
                     for leaf in _boolean_leaves(t):
-                        if is_payload(leaf):
+                        if is_payload(leaf) and reaches_use(leaf):
                             uses.append((holder, leaf))
+                        elif isinstance(leaf, ast.Compare) and len(leaf.ops) == 1 and isinstance(leaf.ops[0], (ast.Is, ast.IsNot, ast.Eq, ast.NotEq)):
+                            # a payload compared with a constant: the constant is taken for 'nothing there' (None as the end of a stream,
+                            # as 'no such entry'), and a value that IS that constant is lost
+                            l, r = leaf.left, leaf.comparators[0]
+                            for x, y in ((l, r), (r, l)):
+                                if is_payload(x) and isinstance(y, ast.Constant) and reaches_use(x):
+                                    uses.append((holder, leaf))
+                                    break
             for holder, leaf in uses:
                 # a filter site: the statement the test belongs to decides self._is_false_
                 st = holder
@@ -321,9 +412,12 @@ def rule_value_not_tested(db: ProgramDB) -> List[Instance]:
                                                                       "(it decides _is_false_)", line=leaf.lineno))
                 else:
                     out.append(inst("VALUE-NOT-TESTED", VIOLATION, m, key,
-                                    f"the payload of a bound value is tested for truth to decide something other than the truth of a "
-                                    f"condition: a falsy value (0, '', [], None, False) is skipped / wrapped / accumulated differently "
-                                    f"from any other value", line=leaf.lineno))
+                                    (f"the payload of a bound value is compared with a constant to decide whether there is a value at all: a value that "
+                                     f"is that constant (None stored under a key, None selected as a result) is taken for 'nothing there' and the row - or "
+                                     f"every row after it - is lost" if isinstance(leaf, ast.Compare) else
+                                     f"the payload of a bound value is tested for truth to decide something other than the truth of a "
+                                     f"condition: a falsy value (0, '', [], None, False) is skipped / wrapped / accumulated differently "
+                                     f"from any other value"), line=leaf.lineno))
             if not uses:
                 out.append(inst("VALUE-NOT-TESTED", HOLDS, m, f"{m.short}[payloads]",
                                 f"{len(payload_reads)} payload read(s), none tested for truth"))
